@@ -4,7 +4,7 @@ import D2P.Model.Output
 # Open findings, as kernel-checked witnesses
 
 For the genuine defects that are recorded rather than repaired (`known_findings.json`) the model
-exhibits the same behaviour as the code; here the witness inputs of two of them are evaluated in the
+exhibits the same behaviour as the code; here witness inputs are evaluated in the
 kernel, so that "the property is false of the model at this input" is itself a checked statement (and
 stops checking the day the behaviour is repaired in code and model).
 -/
@@ -33,9 +33,11 @@ def strayDoc : Xml :=
     mel 4 "oMathPara" none [mel 5 "oMath" none [mel 6 "r" none [mel 7 "t" (some (lit "z")) []]]],
     p 8 [r 9 [t 10 "b"]], p 11 [r 12 [t 13 "c"]]]
 
-/-- **C12-inline-content-outside-paragraph**: the equation's implicit paragraph is closed only when the part ends -/
-theorem C12_finding_stray_inline :
-    (newDepthCollector cfg [] strayDoc >>= runStrs) = .ok [[lit "a"], [lit "b"], [lit "c"], [lit "<latex>z</latex>"]] := by
+/-- **C12-inline-content-outside-paragraph, repaired**: the equation's implicit paragraph is concluded
+where the next block begins (`conclude_implicit_paragraph`) — before the repair it came out after `c`,
+when the part ended -/
+theorem C12_repaired_stray_inline :
+    (newDepthCollector cfg [] strayDoc >>= runStrs) = .ok [[lit "a"], [lit "<latex>z</latex>"], [lit "b"], [lit "c"]] := by
   decide +kernel
 
 end D2P.Ex
